@@ -87,7 +87,7 @@ func runC19(rc *RunCtx) {
 		}
 	}
 	sc.Hooks = true
-	sc.ObserveParse = sc.Kind != KSerial
+	sc.ObserveParse = sc.Kind != KSerial && t.Choose(2) == 0 // otherwise the client comes from the protocol's own constructor
 	sc.WrappedTimeouts = sc.Kind != KSerial && t.Choose(2) == 1
 	sc.DeadlinePort = sc.Kind == KSerial && !sc.Flusher && t.Choose(2) == 1
 	nilOpt := t.Choose(2) == 1
